@@ -77,9 +77,12 @@ def value_alternatives(b, extra=b""):
     the parser cannot accept may have been replaced by SP or removed."""
     alts = set()
     bases = [b]
-    m = re.search(rb"(\r\n|\r|\n)\Z", b)
-    if m:
-        bases.append(b[:m.start()])
+    if any(c in HOSTILE for c in b):
+        bases.append(bytes(c for c in b if c not in HOSTILE))  # removed before the line breaks are looked at
+    for base in list(bases):
+        m = re.search(rb"(\r\n|\r|\n)\Z", base)
+        if m:
+            bases.append(base[:m.start()])
     for base in bases:
         s = sp_for_linebreaks(base)
         for ch in extra:
@@ -462,11 +465,68 @@ FUNCTIONS = ["Request.write", "Request.finish", "Request.setResponseCode", "Requ
              "_sanitizeLinearWhitespace", "_NameEncoder.encode", "toChunk"]
 
 
+def tags_of(script):
+    """Input classes of a script, computed from the script alone (never from the outcome).  They are the last
+    element of every case so that a known-finding region can be written as `'tag' in case[-1]`:
+      reason-linebreak  the reason phrase contains CR or LF
+      reason-ctl        the reason phrase contains NUL, VT or FF
+      value-ctl         a header value given under a valid name contains NUL, VT or FF
+      cookie-ctl        a component of a cookie contains NUL, VT or FF
+      cookie+set-cookie addCookie is used and a Set-Cookie header is also given directly"""
+    tags = set()
+    direct = has_cookie = False
+    for op in script:
+        if op[0] == "code" and op[2] is not None:
+            if b"\r" in op[2] or b"\n" in op[2]:
+                tags.add("reason-linebreak")
+            if any(c in HOSTILE for c in op[2]):
+                tags.add("reason-ctl")
+        elif op[0] in ("set", "add", "raw"):
+            name = encode_text(op[1], "iso-8859-1")
+            if name is None or not is_token(name):
+                continue
+            if name.lower() == b"set-cookie":
+                direct = True
+            vals = [encode_text(v, "utf-8") for v in (op[2] if op[0] == "raw" else (op[2],))]
+            if all(v is not None for v in vals) and any(is_hostile(v) for v in vals):
+                tags.add("value-ctl")
+        elif op[0] == "cookie":
+            has_cookie = True
+            comps = [op[1], op[2]] + [v for a, v in op[3] if a not in ("Secure", "HttpOnly", "SameSite") and v is not None]
+            comps = [encode_text(c, "utf-8") for c in comps]
+            if all(c is not None for c in comps) and any(is_hostile(c) for c in comps):
+                tags.add("cookie-ctl")
+    if direct and has_cookie:
+        tags.add("cookie+set-cookie")
+    return tuple(sorted(tags))
+
+
 # ----------------------------------------------------------------------------------------------------------
 # the bounded contracts
 # ----------------------------------------------------------------------------------------------------------
 
-class HeaderFields(Bounded):
+class _C20(Bounded):
+    """Subclasses enumerate raw cases and turn a raw case into (version, method, script, pipeline?).  The case
+    handed to the engine is the raw case plus the input tags of its script."""
+    prop = "C20"
+    functions = FUNCTIONS
+
+    def raw_cases(self, tier, rng):
+        raise NotImplementedError
+
+    def plan(self, raw):
+        raise NotImplementedError
+
+    def cases(self, tier, rng):
+        for raw in self.raw_cases(tier, rng):
+            yield raw + (tags_of(self.plan(raw)[2]),)
+
+    def check(self, case):
+        ver, meth, script, pipeline = self.plan(case[:-1])
+        return check_exchange(ver, meth, script, pipeline)
+
+
+class HeaderFields(_C20):
     prop = "C20"
     title = ("one header set through setHeader / addRawHeader / setRawHeaders, then a sentinel header and a body: "
              "h11's parse of the emitted bytes against the header model")
@@ -484,7 +544,7 @@ class HeaderFields(Bounded):
     VAL_B = (b"a", b" ", b"\t", b"\r", b"\n", b":", b"\x00", b"\x0b", b"\x0c", b"\x7f", b"\x85", b"\xe9", b"\xff")
     VAL_T = ("a", " ", "\r", "\n", "\x1c", "\x85", chr(0x2028), "\xe9", chr(0x1F600), chr(0xD800), "\x00")
 
-    def cases(self, tier, rng):
+    def raw_cases(self, tier, rng):
         for api in ("set", "add", "raw"):
             for nm in itertools.chain(map(bjoin, words(self.NAME_B, 2)), map(sjoin, words(self.NAME_T, 2))):
                 for ver, meth in ((b"HTTP/1.1", b"GET"), (b"HTTP/1.0", b"HEAD")):
@@ -505,15 +565,15 @@ class HeaderFields(Bounded):
     def nontrivial(self, case):
         return len(case[3]) > 0 and (case[2] == "seq" or len(case[4]) > 0)
 
-    def check(self, case):
-        ver, meth, api, nm, v = case
+    def plan(self, raw):
+        ver, meth, api, nm, v = raw
         if api == "seq":
             ops = []
             for j, (a, n) in enumerate(nm):
                 val = (b"v%d" % j) if j % 2 else ("w%d\r\n" % j)
                 ops.append(("raw", n, ()) if a == "raw0" else ("raw", n, (val, b"second")) if a == "raw"
                            else (a, n, val))
-            return check_exchange(ver, meth, script_of(hdr_ops=tuple(ops), writes=(b"body",)))
+            return ver, meth, script_of(hdr_ops=tuple(ops), writes=(b"body",)), False
         if api == "raw2":
             op = ("raw", nm, v)
         elif api == "raw":
@@ -521,11 +581,10 @@ class HeaderFields(Bounded):
         else:
             op = (api, nm, v)
         script = script_of(hdr_ops=(("set", b"x-before", b"0"), op, ("add", b"x-after", b"1")), writes=(b"body",))
-        return check_exchange(ver, meth, script)
+        return ver, meth, script, False
 
 
-class Cookies(Bounded):
-    prop = "C20"
+class Cookies(_C20):
     title = ("addCookie with adversarial names, values and attributes: the Set-Cookie fields h11 sees, parsed per "
              "RFC 6265, against the cookies given; no other header appears or disappears")
     scope = ("cookie name and value: all pairs of byte strings of length <= 2 over {a ; = CR LF SP NUL 0xE9} "
@@ -533,9 +592,7 @@ class Cookies(Bounded):
              "Expires/Domain/Path/Max-Age/Comment alone with every byte string of length <= 3 over {a ; = CR LF SP}; "
              "all combinations of secure, httpOnly, sameSite in {None, lax, Strict, b'STRICT'}; two cookies; a "
              "cookie together with a directly set Set-Cookie header; exhaustive")
-    functions = FUNCTIONS
-
-    def cases(self, tier, rng):
+    def raw_cases(self, tier, rng):
         alpha = (b"a", b";", b"=", b"\r", b"\n", b" ", b"\x00", b"\xe9")
         if tier != "quick":
             alpha += (b",", b'"')
@@ -563,8 +620,8 @@ class Cookies(Bounded):
                 yield ("two", k, v, ())
                 yield ("direct", k, v, ())
 
-    def check(self, case):
-        mode, k, v, attrs = case
+    def plan(self, raw):
+        mode, k, v, attrs = raw
         cookies = [(k, v, attrs)]
         ops = [("set", b"x-before", b"0")]
         if mode == "two":
@@ -572,22 +629,19 @@ class Cookies(Bounded):
         if mode == "direct":
             ops.append(("add", b"set-cookie", b"direct=1"))
         script = script_of(hdr_ops=tuple(ops), cookies=cookies, writes=(b"body",))
-        return check_exchange(b"HTTP/1.1", b"GET", script)
+        return b"HTTP/1.1", b"GET", script, False
 
 
-class StatusLine(Bounded):
-    prop = "C20"
+class StatusLine(_C20):
     title = ("setResponseCode with every short reason phrase: h11 sees one response with that status, the headers "
              "set and the body, or the phrase is refused when set")
     scope = ("reason phrases: all byte strings of length <= 3 (thorough 4) over {O SP HT CR LF : NUL VT DEL 0xE9 "
              "0xFF} with code 200 on HTTP/1.1 GET, followed by a sentinel header; codes {200 201 204 299 304 404 "
              "500 599 999} x {default phrase, b'', b'Fine', b'two words', CRLF-injection phrase} x HTTP/1.0, 1.1 "
              "x GET, HEAD; exhaustive")
-    functions = FUNCTIONS
-
     ALPHA = (b"O", b" ", b"\t", b"\r", b"\n", b":", b"\x00", b"\x0b", b"\x7f", b"\xe9", b"\xff")
 
-    def cases(self, tier, rng):
+    def raw_cases(self, tier, rng):
         for code in (200, 201, 204, 299, 304, 404, 500, 599, 999):
             for reason in (None, b"", b"Fine", b"two words", b"OK\r\nX-Evil: 1", b"OK\r\n\r\nHTTP/1.1 200 OK\r\n\r\n"):
                 for ver in VERSIONS:
@@ -600,25 +654,22 @@ class StatusLine(Bounded):
     def nontrivial(self, case):
         return bool(case[3])
 
-    def check(self, case):
-        ver, meth, code, reason = case
+    def plan(self, raw):
+        ver, meth, code, reason = raw
         script = script_of(code=code, reason=reason, hdr_ops=(("set", b"x-after", b"1"),), writes=(b"bo", b"dy"))
-        return check_exchange(ver, meth, script, pipeline=(ver == b"HTTP/1.1"))
+        return ver, meth, script, ver == b"HTTP/1.1"
 
 
-class Framing(Bounded):
-    prop = "C20"
+class Framing(_C20):
     title = ("every short sequence of writes then finish: h11's body against the concatenation of the writes, "
              "bodiless for HEAD/204/304, delimitation checked by a pipelined second request or connection close")
     scope = ("write sequences of length 0..3 (thorough 4) over {b'', a, CRLF, '0 CRLF CRLF', 'HTTP/1.1 200 OK CRLF "
              "CRLF', 17 octets}; codes {200 204 304 404}; HTTP/1.0 and 1.1; GET and HEAD; with and without an "
              "application-supplied correct Content-Length; on HTTP/1.1 a second request is pipelined behind the "
              "first; exhaustive")
-    functions = FUNCTIONS
-
     CHUNKS = (b"", b"a", b"\r\n", b"0\r\n\r\n", b"HTTP/1.1 200 OK\r\n\r\n", b"0123456789abcdefg")
 
-    def cases(self, tier, rng):
+    def raw_cases(self, tier, rng):
         n = 3 if tier == "quick" else 4
         for ver in VERSIONS:
             for meth in METHODS:
@@ -632,14 +683,12 @@ class Framing(Bounded):
     def nontrivial(self, case):
         return any(case[4])
 
-    def check(self, case):
-        ver, meth, code, cl, ws = case
-        script = script_of(code=code, writes=ws, cl=cl)
-        return check_exchange(ver, meth, script, pipeline=(ver == b"HTTP/1.1"))
+    def plan(self, raw):
+        ver, meth, code, cl, ws = raw
+        return ver, meth, script_of(code=code, writes=ws, cl=cl), ver == b"HTTP/1.1"
 
 
-class RandomResponses(Bounded):
-    prop = "C20"
+class RandomResponses(_C20):
     title = ("seeded random whole responses (code, reason, several headers through all setter APIs, cookies with "
              "attributes, writes): h11's parse against the model")
     scope = ("quick 2500 / thorough 40000 random scripts: 0..4 header operations with names from a pool of valid "
@@ -693,7 +742,7 @@ class RandomResponses(Bounded):
             return bytes(rng.choice(sorted(TCHAR)) for _ in range(rng.randint(1, 6)))
         return self._value(rng, 4)
 
-    def cases(self, tier, rng):
+    def raw_cases(self, tier, rng):
         n = 2500 if tier == "quick" else 40000
         for _ in range(n):
             ver = rng.choice(VERSIONS)
@@ -728,9 +777,9 @@ class RandomResponses(Bounded):
             yield (ver, meth, script_of(code=code, reason=reason, hdr_ops=tuple(ops), cookies=tuple(cookies),
                                         writes=writes, cl=cl))
 
-    def check(self, case):
-        ver, meth, script = case
-        return check_exchange(ver, meth, script, pipeline=(ver == b"HTTP/1.1"))
+    def plan(self, raw):
+        ver, meth, script = raw
+        return ver, meth, script, ver == b"HTTP/1.1"
 
 
 BOUNDED = [HeaderFields, Cookies, StatusLine, Framing, RandomResponses]
